@@ -2,7 +2,7 @@
    bool/option/unit/prod/list/sumbool/comparison map to OCaml's own types; N, Z, positive, nat stay
    the extracted inductives.  No Extract Constant. *)
 From Coq Require Import NArith ZArith List Extraction ExtrOcamlBasic.
-From Rawr Require Import Consts Bits Magic Position MoveGen MakeMove Fen Eval TT Search Uci Rules Abs UciSpec GameTree Style MakeStages.
+From Rawr Require Import Consts Bits Magic Position MoveGen MakeMove Fen Eval TT Search Uci Rules Abs UciSpec GameTree Style StyleGame MakeStages.
 
 Extraction Language OCaml.
 Extraction "model.ml"
@@ -21,7 +21,7 @@ Extraction "model.ml"
   abs_state board_of spec_legal spec_attacked dec enc apply pass_turn legal captures checkmate stalemate leaves in_check_of
   run_session step position_cmd moves_cmd find_move display_pos init_state lit set_frc
   move_str denotes play_tokens qvalue_b mating_moves
-  aggression_score positional_score pawn_pusher_score Style.is_valid
+  aggression_score positional_score pawn_pusher_score Style.is_valid analyse_games analyse_game empty_stats
   valid_b ep_retro material in_D consistent
   premises_b cpremises_b refines_b key_move_b key_pos_b attack_pre_b good_pos_b inv_b invs_b ep_ok_b invr_b
   N.of_nat N.to_nat Z.of_N Z.to_N Z.of_nat.
